@@ -45,4 +45,23 @@ def viewSpecOK (H : Hier) (c : Name) (out : List Name) : Bool :=
         | some pb => (viewSucc H pb).contains x
         | none => false
 
+/-! ## computable sufficient condition for duplicate-freedom of `__iter__` (`Scfg.C16.uniqueB_sound`) -/
+
+/-- what the iterator model yields below region `b`, or `none` if it does not answer -/
+def yieldBelow (H : Hier) (f : Nat) (b : Blk) : Option (List Name) :=
+  match iterAll H f b.name with
+  | .ok out => some out
+  | .error _ => none
+
+def uniqueB (H : Hier) (f : Nat) : Bool :=
+  H.all fun b => !b.isRegion ||
+    match yieldBelow H f b with
+    | none => false
+    | some out =>
+      out.all (fun x => (H.getIn? b.cont x).isNone) &&
+      H.all fun b2 => !(b2.isRegion && b2.cont == b.cont && b2.name != b.name) ||
+        match yieldBelow H f b2 with
+        | none => false
+        | some out2 => out.all (fun x => !out2.contains x)
+
 end Scfg.Spec
